@@ -87,71 +87,17 @@ func guardParams(c *Ctx) {
 			return true
 		}
 		stores++
-		conds := c.conds(fi, as)
-		var inline, assertOK, noErr bool
-		for _, cd := range conds {
-			if x, empty, ok := core.EmptyTest(info, cd); ok && empty {
-				xs := exprStr(x)
-				if o := core.ObjOf(info, x); o != nil {
-					if defs := ld.Defs[o]; len(defs) == 1 && defs[0].Kind == core.DefAssign {
-						xs = exprStr(defs[0].Expr)
-					}
-				}
-				if strings.Contains(xs, ".Ref") {
-					inline = true
-				}
-			}
-			if cd.Kind == core.CondBool {
-				if o := core.ObjOf(info, cd.Expr); o != nil && !cd.Neg {
-					for _, d := range ld.Defs[o] {
-						if d.Kind == core.DefMulti && d.Index == 1 {
-							if ta, ok := core.Unparen(d.Expr).(*ast.TypeAssertExpr); ok && core.IsSpecType(info.TypeOf(ta.Type), "Parameter") {
-								assertOK = true
-							}
-						}
-					}
-				}
-				if x, nonNil, ok := core.NilTest(info, cd); ok && !nonNil && core.IsErrorType(info.TypeOf(x)) {
-					noErr = true
-				}
-			}
-		}
-		// on the $ref path the stored value must be the asserted object
-		resolved := false
-		if assertOK && noErr {
-			if vo := core.ObjOf(info, as.Rhs[0]); vo != nil {
-				for _, d := range ld.Defs[vo] {
-					if d.Kind != core.DefAssign || d.Pos > as.Pos() {
-						continue
-					}
-					if ro := core.ObjOf(info, d.Expr); ro != nil {
-						for _, rd := range ld.Defs[ro] {
-							if rd.Kind == core.DefMulti && rd.Index == 0 {
-								if _, ok := core.Unparen(rd.Expr).(*ast.TypeAssertExpr); ok {
-									// the assignment must be the last one before the store
-									resolved = true
-									for _, d2 := range ld.Defs[vo] {
-										if d2.Pos > d.Pos && d2.Pos < as.Pos() {
-											resolved = false
-										}
-									}
-								}
-							}
-						}
-					}
-				}
-			}
-		}
-		ok = inline || resolved
+		ok = c.resolvedParamValue(fi, as.Rhs[0], as, 0)
 		c.S.Decide(ok, "C15", "GUARD-PLACEHOLDER", fi.QName()+"/store", c.P.Pos(as.Pos()),
 			"stores either a parameter whose $ref is empty or the parameter obtained from the successful resolution of its $ref",
 			"a parameter is stored into the result although it is neither ref-free nor the resolved target of its $ref: callers can receive an unresolved placeholder")
 		return true
 	})
-	if stores < 2 {
-		c.S.Undecided("C15", "GUARD-PLACEHOLDER", "floor", "-", fmt.Sprintf("%d stores into the result map (expected 2)", stores))
+	if stores < 1 {
+		c.S.Undecided("C15", "GUARD-PLACEHOLDER", "floor", "-", "no store into the result map found in the parameter merge")
 	}
-	// error edges: the callback's answer selects "next parameter" (true) or "stop" (false), in either shape:
+	// error edges: every failure test of the resolution (an error, a failed assertion) hands the error to the
+	// callback, whose answer selects "next parameter" (true) or "stop" (false), in either shape:
 	//   if cb(…) { continue }; break|return        or        if !cb(…) { break|return }; continue
 	edges := 0
 	isStop := func(st ast.Stmt) bool {
@@ -167,6 +113,7 @@ func guardParams(c *Ctx) {
 		b, ok := st.(*ast.BranchStmt)
 		return ok && b.Tok.String() == "continue"
 	}
+	edgeIn := map[ast.Node]bool{} // if-statements calling the callback
 	ast.Inspect(fi.Decl.Body, func(n ast.Node) bool {
 		blk, ok := n.(*ast.BlockStmt)
 		if !ok {
@@ -188,6 +135,7 @@ func guardParams(c *Ctx) {
 				continue
 			}
 			edges++
+			edgeIn[ifs] = true
 			okShape := false
 			if len(ifs.Body.List) > 0 && ifs.Else == nil {
 				last := ifs.Body.List[len(ifs.Body.List)-1]
@@ -207,9 +155,48 @@ func guardParams(c *Ctx) {
 		}
 		return true
 	})
-	if edges < 2 {
+	// failure tests: `err != nil` on an error, `!ok` on the flag of a type assertion to spec.Parameter
+	failures := 0
+	ast.Inspect(fi.Decl.Body, func(n ast.Node) bool {
+		ifs, ok := n.(*ast.IfStmt)
+		if !ok {
+			return true
+		}
+		kind := ""
+		for _, cd := range core.SplitCond(ifs.Cond, false) {
+			if x, nonNil, ok := core.NilTest(info, cd); ok && nonNil && core.IsErrorType(info.TypeOf(x)) {
+				kind = "error"
+			}
+			if cd.Kind == core.CondBool && cd.Neg {
+				if o := core.ObjOf(info, cd.Expr); o != nil {
+					for _, d := range ld.Defs[o] {
+						if d.Kind == core.DefMulti && d.Index == 1 {
+							if ta, ok := core.Unparen(d.Expr).(*ast.TypeAssertExpr); ok && core.IsSpecType(info.TypeOf(ta.Type), "Parameter") {
+								kind = "assertion"
+							}
+						}
+					}
+				}
+			}
+		}
+		if kind == "" {
+			return true
+		}
+		failures++
+		has := false
+		ast.Inspect(ifs.Body, func(m ast.Node) bool {
+			if edgeIn[m] {
+				has = true
+			}
+			return true
+		})
+		c.S.Decide(has, "C15", "GUARD-CALLBACK", fi.QName()+"/failure:"+kind, c.P.Pos(ifs.Pos()),
+			"a failed resolution ("+kind+") is handed to the callback", "the branch taken when the $ref resolution fails ("+kind+") does not consult the error callback: the failure is neither reported nor turned into a panic")
+		return true
+	})
+	if edges < 1 || failures < 1 {
 		c.S.Decide(false, "C15", "GUARD-CALLBACK", fi.QName()+"/error-edges", c.P.Pos(fi.Decl.Pos()), "",
-			fmt.Sprintf("%d error edges call the callback (expected 2: unresolvable $ref, $ref to a non-parameter)", edges))
+			fmt.Sprintf("%d failure tests and %d callback edges found in the parameter merge (expected at least one of each)", failures, edges))
 	}
 	// nil callback = panic
 	panics := false
@@ -249,16 +236,7 @@ func guardParams(c *Ctx) {
 			if li >= len(call.Args) {
 				continue
 			}
-			p := c.P.PathOf(cf, call.Args[li], true)
-			owner := "?"
-			if p != nil {
-				for i := len(p.Steps) - 1; i >= 0; i-- {
-					if p.Steps[i].Field != nil {
-						owner = core.OwnerStruct(c.P, p.Steps[i].Field)
-						break
-					}
-				}
-			}
+			owner := c.listOwner(cf, call.Args[li], 0)
 			seq = append(seq, mcall{call, owner})
 		}
 		if len(seq) == 0 {
@@ -466,7 +444,10 @@ func guardListing(c *Ctx) {
 							// guarded by equality of the requested id with the operation's id
 							okc := false
 							for _, cd := range c.conds(fi, v) {
-								if be, ok := core.Unparen(cd.Expr).(*ast.BinaryExpr); ok && cd.Kind == core.CondBool && !cd.Neg && be.Op.String() == "==" {
+								if cd.Kind != core.CondBool {
+									continue
+								}
+								if be, ok := core.Unparen(cd.Expr).(*ast.BinaryExpr); ok && (!cd.Neg && be.Op.String() == "==" || cd.Neg && be.Op.String() == "!=") {
 									s := exprStr(be.X) + "|" + exprStr(be.Y)
 									if strings.Contains(s, opVal.Name()+".ID") {
 										okc = true
@@ -589,4 +570,208 @@ func guardLookupFlag(c *Ctx) {
 	if n < 1 {
 		c.S.Undecided("C14", "GUARD-LOOKUPFLAG", "floor", "-", "no (pointer, bool) query returning a looked-up value found (expected OperationFor)")
 	}
+}
+
+// listOwner: the struct owning the field a []spec.Parameter argument is read from ("…PathItemProps",
+// "…OperationProps"); a parameter of the enclosing function is followed to the arguments of its callers, which
+// must agree.
+func (c *Ctx) listOwner(fi *core.FuncInfo, e ast.Expr, depth int) string {
+	if depth > 3 {
+		return "?"
+	}
+	info := c.info(fi)
+	e = core.Unparen(e)
+	if sel, ok := e.(*ast.SelectorExpr); ok {
+		if fv := core.FieldOf(info, sel); fv != nil {
+			return core.OwnerStruct(c.P, fv)
+		}
+	}
+	if o := core.ObjOf(info, e); o != nil {
+		if idx, isParam := c.paramIndexOf(fi, o); isParam {
+			owner := ""
+			for _, caller := range c.P.SortedFuncs() {
+				for _, call := range calls(caller.Decl.Body) {
+					if c.P.StaticCallee(caller, call) != fi.Obj || idx >= len(call.Args) {
+						continue
+					}
+					w := c.listOwner(caller, call.Args[idx], depth+1)
+					if owner != "" && owner != w {
+						return "?"
+					}
+					owner = w
+				}
+			}
+			if owner != "" {
+				return owner
+			}
+			return "?"
+		}
+	}
+	if p := c.P.PathOf(fi, e, true); p != nil {
+		for i := len(p.Steps) - 1; i >= 0; i-- {
+			if p.Steps[i].Field != nil {
+				return core.OwnerStruct(c.P, p.Steps[i].Field)
+			}
+		}
+	}
+	return "?"
+}
+
+// sameParamValue: the two locals hold the same parameter value (one is a plain copy of the other).
+func (c *Ctx) sameParamValue(fi *core.FuncInfo, a, b types.Object) bool {
+	if a == nil || b == nil {
+		return false
+	}
+	if a == b {
+		return true
+	}
+	info := c.info(fi)
+	ld := c.P.Locals(fi)
+	copyOf := func(x, y types.Object) bool {
+		for _, d := range ld.Defs[x] {
+			switch d.Kind {
+			case core.DefAssign:
+				if core.ObjOf(info, d.Expr) == y {
+					return true
+				}
+				// element of a ranged/indexed list held in y's source: x := list[i] and y ranged over list
+			}
+		}
+		return false
+	}
+	return copyOf(a, b) || copyOf(b, a)
+}
+
+// resolvedParamValue: the expression (at the given statement) is a parameter that is not a placeholder:
+//   - its $ref is known to be empty by a dominating test, or
+//   - it is the object obtained by asserting the resolved pointer to spec.Parameter, under the assertion's ok flag
+//     and after the error test, or
+//   - it is the first result of a helper called under `err == nil`, all of whose nil-error returns return such a value.
+func (c *Ctx) resolvedParamValue(fi *core.FuncInfo, v ast.Expr, at ast.Node, depth int) bool {
+	if depth > 3 {
+		return false
+	}
+	info := c.info(fi)
+	ld := c.P.Locals(fi)
+	vo := core.ObjOf(info, v)
+	if vo == nil {
+		return false
+	}
+	conds := c.conds(fi, at)
+	resolveLocal := func(x ast.Expr) ast.Expr {
+		for i := 0; i < 3; i++ {
+			o := core.ObjOf(info, x)
+			if o == nil {
+				break
+			}
+			defs := ld.Defs[o]
+			if len(defs) != 1 || defs[0].Kind != core.DefAssign {
+				break
+			}
+			x = core.Unparen(defs[0].Expr)
+		}
+		return x
+	}
+	var assertOK, noErr bool
+	var okOf, errOf ast.Expr // the expressions whose success the flags witness
+	for _, cd := range conds {
+		if x, empty, ok := core.EmptyTest(info, cd); ok && empty {
+			rx := resolveLocal(x)
+			isRef := false
+			ast.Inspect(rx, func(n ast.Node) bool {
+				if sel, ok := n.(*ast.SelectorExpr); ok && sel.Sel.Name == "Ref" && core.IsSpecType(info.TypeOf(sel), "Ref") {
+					if id := rootIdent(sel.X); id != nil && c.sameParamValue(fi, core.ObjOf(info, id), vo) {
+						isRef = true
+					}
+				}
+				return true
+			})
+			if isRef {
+				return true
+			}
+		}
+		if cd.Kind == core.CondBool {
+			if o := core.ObjOf(info, cd.Expr); o != nil && !cd.Neg {
+				for _, d := range ld.Defs[o] {
+					if d.Kind == core.DefMulti && d.Index == 1 {
+						if ta, ok := core.Unparen(d.Expr).(*ast.TypeAssertExpr); ok && core.IsSpecType(info.TypeOf(ta.Type), "Parameter") {
+							assertOK = true
+							okOf = d.Expr
+						}
+					}
+				}
+			}
+			if x, nonNil, ok := core.NilTest(info, cd); ok && !nonNil && core.IsErrorType(info.TypeOf(x)) {
+				noErr = true
+				if eo := core.ObjOf(info, x); eo != nil {
+					for _, d := range ld.Defs[eo] {
+						if d.Kind == core.DefMulti && d.Pos < at.Pos() {
+							errOf = d.Expr
+						}
+					}
+				}
+			}
+		}
+	}
+	// the value's reaching definitions (the last one before the statement, through one plain copy)
+	lastDef := func(o types.Object) *core.Def {
+		var best *core.Def
+		for i, d := range ld.Defs[o] {
+			if d.Pos <= at.Pos() && (best == nil || d.Pos > best.Pos) {
+				best = &ld.Defs[o][i]
+			}
+		}
+		return best
+	}
+	d := lastDef(vo)
+	if d == nil {
+		return false
+	}
+	if d.Kind == core.DefAssign {
+		if ro := core.ObjOf(info, d.Expr); ro != nil {
+			if rd := lastDef(ro); rd != nil {
+				d = rd
+			}
+		}
+	}
+	if d.Kind != core.DefMulti || d.Index != 0 {
+		return false
+	}
+	switch x := core.Unparen(d.Expr).(type) {
+	case *ast.TypeAssertExpr:
+		return assertOK && noErr && okOf == d.Expr && core.IsSpecType(info.TypeOf(x.Type), "Parameter")
+	case *ast.CallExpr:
+		if !noErr || errOf != d.Expr {
+			return false
+		}
+		callee := c.P.StaticCallee(fi, x)
+		g := c.P.Funcs[callee]
+		if callee == nil || g == nil || g.Decl == nil || g.Decl.Body == nil {
+			return false
+		}
+		all, n := true, 0
+		ast.Inspect(g.Decl.Body, func(m ast.Node) bool {
+			if _, isLit := m.(*ast.FuncLit); isLit {
+				return false
+			}
+			ret, ok := m.(*ast.ReturnStmt)
+			if !ok {
+				return true
+			}
+			if len(ret.Results) != 2 {
+				all = false
+				return true
+			}
+			if !core.IsNilExpr(c.info(g), ret.Results[1]) {
+				return true // error return: the caller's error edge handles it
+			}
+			n++
+			if !c.resolvedParamValue(g, ret.Results[0], ret, depth+1) {
+				all = false
+			}
+			return true
+		})
+		return all && n > 0
+	}
+	return false
 }
